@@ -151,8 +151,18 @@ func H_C01_safewriters() {
 func H_C01_writerNotLast() {
 	writers := []string{"raw", "unsafe", "safeHtml", "safeJs", "mark"}
 	w := ndChoice("writer", len(writers))
+	forms := []string{`{{ "x" | W | after }}`, `{{ W: "x" | after }}`, `{{ W("x") | after }}`, `{{ "x" | W | after | W }}`, `{{ W: "x" | after: 1 }}`}
+	f := ndChoice("form", len(forms))
+	src := ""
+	for i := 0; i < len(forms[f]); i++ {
+		if forms[f][i] == 'W' {
+			src += writers[w]
+		} else {
+			src += string(forms[f][i])
+		}
+	}
 	log := &hxLog{}
-	set := hxSet(nil, "/m.jet", `{{ "x" | `+writers[w]+` | after }}`)
+	set := hxSet(nil, "/m.jet", src)
 	vars := make(VarMap)
 	vars.SetWriter("mark", hxMark)
 	vars.SetFunc("after", log.probe("after", "y"))
@@ -277,3 +287,10 @@ func (c01BoolStringer) String() string { return c01Text }
 type c01UintStringer uint8
 
 func (c01UintStringer) String() string { return c01Text }
+
+// H_C01_escaperFollowsSet: the escaper applied is always that of the Set the executed
+// template belongs to, also when a Set with a different escaper ran just before on the
+// same goroutine (shares the harness of C10).
+//
+//gosym:reach rendered
+func H_C01_escaperFollowsSet() { H_C10_twoSets() }
